@@ -45,6 +45,8 @@ type Case struct {
 	P   []float64 `json:"p,omitempty"` // mixtable: component densities
 	X   int       `json:"x,omitempty"` // mixcat: observed symbol
 	Sel [][]int   `json:"sel,omitempty"`
+	// bw: poison value of the reused work matrices (0: NaN, 1: 1.5)
+	Poison int `json:"poison,omitempty"`
 }
 
 // ---------------------------------------------------------------- data records
@@ -782,6 +784,10 @@ func genMix(r *Rng, w *CaseWriter) Case {
 func isMix(c Case) bool { return strings.HasPrefix(c.Kind, "mix") }
 
 func emit(c Case, w *CaseWriter, key string) {
+	if c.Kind == "bw" {
+		emitBW(c, w, key)
+		return
+	}
 	if isMix(c) {
 		obs, err := observeMix(c)
 		if err != nil {
@@ -854,7 +860,7 @@ func main() {
 	}
 	w := NewCaseWriter(o.Out, "cases", hdr, "mism", 5)
 	w.Type = "case"
-	w.Rule = "random HMMs (1-4 states, sequence length 1-6, 1-3 sequences per model, probabilities k/16 with zeros, unnormalised rows, all-zero rows, nil/permuted/non-injective state maps, start/final restrictions incl. -1 and duplicates, emission tables or categorical emissions through vectorDistribution.Hmm, Float64 or Real64 parameters) and mixtures (1-4 components, table or categorical); an HMM case is non-trivial iff it has >= 2 states and a sequence of length >= 3 with positive likelihood, a mixture iff >= 2 non-zero weights; distinct = distinct input"
+	w.Rule = "random HMMs (1-4 states, sequence length 1-6, 1-3 sequences per model, probabilities k/16 with zeros, unnormalised rows, all-zero rows, nil/permuted/non-injective state maps, start/final restrictions incl. -1 and duplicates, emission tables or categorical emissions through vectorDistribution.Hmm, Float64 or Real64 parameters) and mixtures (1-4 components, table or categorical); an HMM case is non-trivial iff it has >= 2 states and a sequence of length >= 3 with positive likelihood, a mixture iff >= 2 non-zero weights; a Baum-Welch case (2-4 records of different lengths on one thread, both record orders, poisoned work memory) is non-trivial iff it has >= 2 states, a longer record directly before a shorter one and the step succeeds; distinct = distinct input"
 	corpus, _ := os.ReadFile(o.Extra)
 	if len(corpus) > 0 {
 		for _, line := range strings.Split(string(corpus), "\n") {
@@ -876,6 +882,12 @@ func main() {
 		var c Case
 		if k%5 == 4 {
 			c = genMix(r, w)
+		} else if k%5 == 3 {
+			// Baum-Welch data set, in the generated and in the reversed record order
+			c = genBW(r, w)
+			b, _ := json.Marshal(c)
+			emit(c, w, string(b))
+			c = reversedBW(c)
 		} else {
 			c = genHmm(r, w)
 		}
